@@ -131,3 +131,42 @@ class Server:
             return r.status == 200
         except Exception:
             return False
+
+
+def run_cli_bursts(args, chunks, pause=0.02, timeout=120):
+    """Run the svgdx binary with stdin delivered as the given chunks, one write() per chunk and a short pause between them
+    (the pause is a stimulus, never a verdict). Output is drained by threads, so a large document cannot dead-lock the pipes."""
+    import threading
+    import time
+    p = subprocess.Popen([core.CLI_BIN] + list(args), stdin=subprocess.PIPE, stdout=subprocess.PIPE, stderr=subprocess.PIPE,
+                         preexec_fn=core._limits, bufsize=0)
+    bufs = {"out": b"", "err": b""}
+
+    def drain(f, k):
+        bufs[k] = f.read()
+    ts = [threading.Thread(target=drain, args=(p.stdout, "out")), threading.Thread(target=drain, args=(p.stderr, "err"))]
+    for t in ts:
+        t.daemon = True
+        t.start()
+    try:
+        for i, c in enumerate(chunks):
+            if i:
+                time.sleep(pause)
+            try:
+                p.stdin.write(c)
+            except (BrokenPipeError, OSError):
+                break
+        try:
+            p.stdin.close()
+        except (BrokenPipeError, OSError):
+            pass
+        try:
+            rc = p.wait(timeout=timeout)
+        except subprocess.TimeoutExpired:
+            p.kill()
+            p.wait()
+            return CliResult(None, bufs["out"], bufs["err"], timed_out=True)
+    finally:
+        for t in ts:
+            t.join(timeout=10)
+    return CliResult(rc, bufs["out"], bufs["err"])
